@@ -209,6 +209,8 @@ func main() {
 	writeIfChanged(filepath.Join(outDir, "LockFacts.v"), lockFacts(pkgs))
 	writeIfChanged(filepath.Join(outDir, "GoTracker.v"), go2heap(pkgs))
 	writeIfChanged(filepath.Join(outDir, "GoRegistry.v"), go2heapRegistry(pkgs))
+	writeIfChanged(filepath.Join(outDir, "GoLineCopy.v"), go2heapLineCopy(pkgs))
+	writeIfChanged(filepath.Join(outDir, "DialFacts.v"), dialFacts(pkgs))
 }
 
 func writeIfChanged(path, txt string) {
